@@ -204,6 +204,12 @@ func runC19(c *Ctx) {
 		}
 		c.obMustUnder("closes above the threshold", f, []string{lClose}, `Conn.errCount > 3`)
 	}
+	// the count is per connection: nothing but protocolError's increment ever writes it
+	for _, site := range c.Sites("st:Conn.errCount") {
+		_, _, v := storedField(site)
+		R.Ob(c.siteKey(site, "errCount only incremented"), c.P.InstrPos(site), funcName(site.Parent()) == "(*Conn).protocolError" && describe(v) == "(Conn.errCount + 1)",
+			"Conn.errCount is written in "+funcName(site.Parent())+" with "+describe(v)+": a client that triggers this write between errors is never disconnected for flooding")
+	}
 	if f := c.A.Func("(*Conn).handle"); f != nil {
 		c.obMustUnder("empty command is a protocol error", f, []string{"call:(*Conn).protocolError"}, `param1 == ""`)
 		// default branch
@@ -220,6 +226,15 @@ func runC19(c *Ctx) {
 		for _, pe := range s.Find(f, "call:(*Conn).protocolError") {
 			c.obFactMatch("unparsable line is a protocol error", pe, `^parseCmd\(.*\)#2 != nil$`, "protocolError in the loop not tied to a parse failure")
 		}
+		nParse := 0
+		allInstrs(f, func(in ssa.Instruction) {
+			if isStaticCall(in, "parseCmd") {
+				nParse++
+				site := in
+				c.obFollowH("unparsable line counts as a protocol error", f, func(x ssa.Instruction) bool { return x == site }, []string{"call:(*Conn).protocolError"}, describe(site.(ssa.Value))+"#2 != nil")
+			}
+		})
+		R.Ob("(*Server).handleConn/parses each line", c.P.Pos(f.Pos()), nParse >= 1, "no parseCmd call in the command loop")
 		for _, site := range s.Find(f, "call:(*Conn).handle") {
 			c.obFactMatch("dispatch only for parsed lines", site, `^parseCmd\(.*\)#2 == nil$`, "a line that failed to parse is dispatched")
 		}
